@@ -430,11 +430,10 @@ theorem commitProveState_ok {s s1 : St} {p : Nat} {nps : ProveState} {c : Bool}
         refine .inr ⟨hc, _, ?_, ?_, ht⟩ <;> first | rfl | exact .inr ⟨hlt, rfl⟩
       · obtain ⟨hc, ht⟩ := commitTail_ok h
         refine .inr ⟨hc, _, ?_, ?_, ht⟩ <;> first | rfl | exact .inr ⟨hlt, rfl⟩
-    · split at h
-      · obtain ⟨hc, ht⟩ := commitTail_ok h
-        refine .inr ⟨hc, _, ?_, ?_, ht⟩ <;> first | rfl | exact .inr ⟨hlt, rfl⟩
-      · simp [pure, Except.pure] at h
-        exact .inl ⟨h.2, h.1.symm⟩
+    · obtain ⟨hc, ht⟩ := commitTail_ok h
+      refine .inr ⟨hc, _, ?_, ?_, ht⟩ <;> first | rfl | exact .inr ⟨hlt, rfl⟩
+    · simp [pure, Except.pure] at h
+      exact .inl ⟨h.2, h.1.symm⟩
   · obtain ⟨hc, ht⟩ := commitTail_ok h
     refine .inr ⟨hc, _, ?_, ?_, ht⟩ <;> first | rfl | exact .inl rfl
 
